@@ -19,7 +19,11 @@ ANAGRAM = ["CCCO.CCOC>>CCCOCCOC", "CCOC.CCCO>>CCCOCCOC", "CCN.CNC>>CCNCNC", "CNC
            "CC(C)O.CCCO>>CC(C)OCCC.O", "OCCN.NCCO>>OCCNCCN.O", "CCCO.CCOC.COCC>>CCCOC", "c1ccccc1O.Oc1ccccc1>>c1ccccc1Oc1ccccc1.O",
            "CCS.CSC>>CCSSC", "[2H]O[2H].CC(=O)Cl>>CC(=O)O[2H].[2H]Cl", "[13CH3]O.Cl>>[13CH3]Cl.O", "[2H]C([2H])([2H])O.CC(=O)O>>CC(=O)OC([2H])([2H])[2H].O",
            "[3H]c1ccccc1.BrBr>>[3H]c1ccc(Br)cc1.Br", "C[13C](=O)O.CO>>C[13C](=O)OC.O", "[2H]Cl.C=C>>[2H]CCCl", "[15NH3].CC(=O)Cl>>CC(=O)[15NH2].Cl",
-           "[18OH2].CC(=O)OC>>CC(=O)[18OH].CO", "ClCCBr.BrCCCl>>ClCCCCBr.ClBr", "CC=O.C=CO>>CC(O)CC=O", "NCC=O.O=CCN>>NCC(O)C(N)C=O"]
+           "[18OH2].CC(=O)OC>>CC(=O)[18OH].CO", "ClCCBr.BrCCCl>>ClCCCCBr.ClBr", "CC=O.C=CO>>CC(O)CC=O", "NCC=O.O=CCN>>NCC(O)C(N)C=O",
+           # coordination compounds: dative bonds are written '->' / '<-', their '>' is not a reaction arrow
+           "[NH3]->[Pt](<-[NH3])(Cl)Cl.OC(=O)C(=O)O>>[NH3]->[Pt]1(<-[NH3])OC(=O)C(=O)O1.Cl.Cl",
+           "Cl[Pd]Cl.CC#N.CC#N>>CC#N->[Pd](Cl)(Cl)<-N#CC", "c1ccncc1.Cl[Cu]>>c1ccn(->[Cu]Cl)cc1",
+           "[Pt](Cl)(Cl)(<-[NH3])<-[NH3]>>[Pt](Cl)(Cl)(<-[NH3])<-[NH3]"]
 
 
 def stereo_free(s):
